@@ -146,13 +146,14 @@ Record node := mkNode {
   enabled_ver : N;
   self_ver : N;
   meta_commit : N;                     (* journal .meta on disk: last flushed commit index *)
-  meta_dirty : bool
+  meta_dirty : bool;
+  replay_idx : N                       (* membership entries up to here take effect when applied (journal replay) *)
 }.
 #[export] Instance eta_node : Settable _ := settable! mkNode
   <self; others; readonly; connected; tconn; role; term; voted; votes; leader; deadline; log; commit; applied;
    next_idx; match_idx; last_resp; last_ser_time; last_ser_entry; force_compact; leader_commit; ready_called;
    change_idx; noop_idx; recv_t; start_time; sec_dumps; need_load; new_ae_time; wait_commit; local_ctr;
-   wait_reply; queue; sr; hist; enabled_ver; self_ver; meta_commit; meta_dirty>.
+   wait_reply; queue; sr; hist; enabled_ver; self_ver; meta_commit; meta_dirty; replay_idx>.
 
 (* ---- sorted sets / association lists over N keys ---- *)
 Fixpoint smem (x : N) (l : list N) : bool :=
